@@ -11,6 +11,8 @@ import Driver.Heap
 import Driver.Alias
 import Driver.Tools
 import Driver.Container
+import Driver.Lexer
+import Driver.Tokens
 /-
 Correspondence driver.  `.lake/build/bin/fsicdrv < requests > replies`  (or `lake env lean --run Main.lean`)
 Each request line is `<kind>\t<json>`; each reply is one line (`!<message>` on a malformed request).
@@ -31,7 +33,9 @@ def allHandlers : List (String × (Json → Except String String)) :=
   Drv.Heap.handlers ++
   Drv.Alias.handlers ++
   Drv.Tools.handlers ++
-  Drv.Container.handlers
+  Drv.Container.handlers ++
+  Drv.Lexer.handlers ++
+  Drv.Tokens.handlers
 
 def dispatch (kind : String) (j : Json) : Except String String :=
   match allHandlers.lookup kind with
